@@ -135,7 +135,9 @@ pub fn gen_ids<C: Suite>(p: &mut Prng, scheme: &str, count: usize) -> Vec<String
 type Scalar2<C> = frost_core::Scalar<C>;
 
 pub fn gen_message(p: &mut Prng) -> Vec<u8> {
-    let len = match p.below(9) {
+    // 32 bytes (a digest) is what real deployments sign most of the time
+    let len = match p.below(11) {
+        9 | 10 => 32,
         0 => 0,
         1 => 1,
         2 => 63,
